@@ -7,7 +7,10 @@
      `comps=<a,b;c;…> out=<ord:a,b,…|rec:n|ctx:n> valid=<0|1> cg=<log:a,b,…|panic|fuel|none> once=<0|1>`
    where `comps` is `tarjan`, `out` is `find_compilation_order`, `valid` is the
    verified checker on `comps`, `cg` the initialiser log of the codegen loop.
-   A model failure is `panic` / `fuel` in the respective field. -/
+   A model failure is `panic` / `fuel` in the respective field.
+
+   `c14 cert <kinds> <edges> <comps>` runs the verified checker `validOrder` on
+   components computed elsewhere (the implementation's): `valid=<0|1>`. -/
 import Driver.Util
 import RotoV.Model.Tarjan
 
@@ -69,6 +72,14 @@ def handle (args : List String) : String :=
         | _ => ("none", "1")
       s!"comps={compsS} out={outS} valid={validS} cg={cgS} once={onceS}"
     | _, _ => "bad-op"
+  | ["cert", kinds, edges, comps] =>
+    -- the verified checker on the *implementation's* components
+    match kinds.toList.mapM parseKind, parseEdges edges,
+          (if comps == "-" then some [] else (comps.splitOn ";").mapM parseNats) with
+    | some ks, some es, some cs =>
+      let g : Graph := ⟨es, fun n => ks.getD n .other⟩
+      if validOrder g cs then "valid=1" else "valid=0"
+    | _, _, _ => "bad-op"
   | _ => "bad-op"
 
 end Driver.C14
